@@ -40,6 +40,10 @@ ALLOWED_AXIOMS = {
     "FloatAxioms.sub_spec",
     "FloatAxioms.opp_spec",
     "FloatAxioms.abs_spec",
+    # the standard library's specification of the primitive binary64 MULTIPLICATION and of `of_uint63` (usize as f64),
+    # same file; used only by the binary64 quantile index law of Proofs/QIdxFloat.v (C12 / C10 / C08 ..._binary64)
+    "FloatAxioms.mul_spec",
+    "FloatAxioms.of_uint63_spec",
 }
 # primitive types / operations that `Print Assumptions` lists next to axioms ("native int/float primitives are not yours")
 PRIMITIVE_PREFIXES = ("PrimFloat.", "PrimInt63.", "PrimArray.", "Uint63.", "Sint63.")
